@@ -77,3 +77,18 @@ macro_rules! mul {
 // }
 
 crate::macro_impl!(mul);
+
+// Verification hooks: thin public wrappers around internal functions, compiled only with `--cfg bnum_verif`.
+#[cfg(bnum_verif)]
+macro_rules! verif_hooks {
+    ($BUint: ident, $BInt: ident, $Digit: ident) => {
+        impl<const N: usize> $BUint<N> {
+            pub fn verif_long_mul(self, rhs: Self) -> (Self, bool) {
+                self.long_mul(rhs)
+            }
+        }
+    };
+}
+
+#[cfg(bnum_verif)]
+crate::macro_impl!(verif_hooks);
